@@ -347,7 +347,7 @@ def r5(ctx, rep):
               f"the window arm must set the frame for its pipeline and reset it afterwards; assignments found: {sets}", file=fl["file"], line=fl["l"], fn=fl["path"])
     # who may write which piece of the Flattener's state, per arm of the transform match
     allowed = {"Sort": {"sort"}, "Group": {"sort", "sort_undone", "partition", "replace_map"}, "Window": {"window", "replace_map"},
-               "Append|Join": {"sort", "sort_undone", "partition", "window"}, "*": set()}
+               "Append|Join": {"sort", "sort_undone", "partition", "window"}, "Aggregate": {"sort"}, "*": set()}
     # ... the Append|Join arm may touch them only to isolate its argument: moved out before the argument is folded, put back after it
     import C03
     iso = C03.join_append_isolation(fl)
